@@ -27,7 +27,7 @@ add('C01', 'exploration',
     'shape with 1..3 and 253 inputs, 0..3 and 253 outputs, witness stack patterns, both classes; headers; blocks of 0..3 and 253 '
     'transactions; CompactSize at the integer level. Every case: byte-exact comparison with an independent wire encoder, round '
     'trip through both classes, every truncation point (all prefixes of short encodings, every field boundary +-1 of long ones) '
-    'and a catalogue of extensions with the exact exception class, carried object and padding. Mutable objects are serialised, edited in place and serialised again; scripts / witness items of MAX_SIZE-1 and MAX_SIZE bytes round-trip. Blocks built from the caller\'s mutable transactions keep their encoding when the caller goes on editing them; a witness slot filled in place on a deserialised mutable transaction switches the encoding and leaves other transactions with the same number of inputs witness-less.',
+    'and a catalogue of extensions with the exact exception class, carried object and padding. Mutable objects are serialised, edited in place and serialised again; scripts / witness items of MAX_SIZE-1 and MAX_SIZE bytes round-trip. Blocks built from the caller\'s mutable transactions keep their encoding when the caller goes on editing them; a witness slot filled in place on a deserialised mutable transaction switches the encoding and leaves other transactions with the same number of inputs witness-less. Every block is also deserialised with three arbitrary merkle fields (kept as they are), and two parsed blocks with equal header bytes and different transactions are kept alive together.',
     'DESIGN.md 3 C01', 'Oracle ref/wire.py (validated on repository literal transactions and by decode(encode) redundancy). '
     'Inside one field body of a long encoding the parser outcome is assumed uniform (it reads field by field).',
     'bounded exhaustive enumeration (deviation-bounded product + exhaustive truncation/extension fault enumeration) against a reference model')
@@ -36,14 +36,14 @@ add('C02', 'exploration',
     'Every base transaction (12 shapes x k<=1/2 field deviations) x every witness assignment (all 5^n stack patterns, absent, '
     'empty object) in both classes: txid/wtxid against sha256d of the reference encodings, equality/hash of twins, txid '
     'invariance under witness replacement, no stale identifiers after field edits, immutable snapshots; sub-object twins; '
-    'block hash = sha256d(80-byte header) for constructed and deserialised blocks (arbitrary merkle field) of 0..3 transactions. Also: identifiers of immutable copies after in-place edits of the original, block == header / other-body comparisons after hashing, and objects deserialised from accepted non-canonical encodings. Failing computations come first, the witness hash is also asked for before the txid, an immutable snapshot is taken after every stage of the edit sequence, and runs of 40 short-lived blocks / transactions / headers report their own identifiers.',
+    'block hash = sha256d(80-byte header) for constructed and deserialised blocks (arbitrary merkle field) of 0..3 transactions. Also: identifiers of immutable copies after in-place edits of the original, block == header / other-body comparisons after hashing, and objects deserialised from accepted non-canonical encodings. Failing computations come first, the witness hash is also asked for before the txid, an immutable snapshot is taken after every stage of the edit sequence, and runs of 40 short-lived blocks / transactions / headers report their own identifiers. A computation that fails on the mutable twin itself (output value 2^63) is followed by restoring the field and asking again.',
     'DESIGN.md 3 C02', 'Oracle ref/wire.py + hashlib.', 'bounded exhaustive enumeration (complete product of shapes x witness patterns) against a reference model')
 
 add('C03', 'exploration',
     'Complete product: 48 transactions (1..3 in x 0..3 out x witness x class; thorough adds k<=1 field deviations) x 19 subscripts '
     '(CODESEPARATOR first/middle/last/repeated/only/inside push data, PUSHDATA1/2/4 spellings, 255-byte and >64 KiB scripts) x '
     'every index 0..len(vin) x all 256 hash types, RawSignatureHash and SignatureHash, with a full before/after snapshot '
-    '(serialisation, field values and object identities) of the caller\'s transaction. Plus a 300-input transaction (indices across the one-byte count boundary) and a subscript holding a 16 MiB PUSHDATA4 push. Plus call.edit.call chains on ONE mutable transaction and ONE script object that was used before (partial / full iteration, predicates, sig-op counts, an earlier hash): 12 hash types before and after every in-place edit of a catalogue, the last call before an edit identical to the first after it. Plus runs of 40 short-lived transactions (built / deserialised inside the call, dropped at once) and error runs S/R/G^3 through both entry points (the second error behaves like the first).',
+    '(serialisation, field values and object identities) of the caller\'s transaction. Plus a 300-input transaction (indices across the one-byte count boundary) and a subscript holding a 16 MiB PUSHDATA4 push. Plus call.edit.call chains on ONE mutable transaction and ONE script object that was used before (partial / full iteration, predicates, sig-op counts, an earlier hash): 12 hash types before and after every in-place edit of a catalogue, the last call before an edit identical to the first after it. Plus runs of 40 short-lived transactions (built / deserialised inside the call, dropped at once) and error runs S/R/G^3 through both entry points (the second error behaves like the first). Plus field extremes (lock time 2^32-1, version +-2^31, sequence / index 2^32-1, values 2^63-1 and -1) and exact duplicates of the signed input at another position.',
     'DESIGN.md 3 C03', 'Oracle ref/sighash.py (preimage assembled from the model by ref/wire.py).',
     'bounded exhaustive enumeration (complete product incl. all 256 hash types) against a reference model')
 
@@ -77,7 +77,7 @@ add('C11', 'fault_enumeration',
     'programs; all strings with a valid checksum over every version symbol x payload length 0..66 x every last symbol (padding, '
     'length, version rules on both sides); every single substitution/deletion/insertion/truncation/case flip of 6 addresses; '
     'every double substitution in the data part (2 addresses quick, 6 thorough); every triple (and quadruple in thorough) '
-    'position set over 3 alternatives; every burst of 3 (4) adjacent symbols over all alternatives. Plus checksum-valid addresses under look-alike prefixes (prefix confusion) and 17 non-ASCII confusable characters substituted at every position in lower- and upper-case renderings. Plus checksums made with foreign constants (bech32m, 0, other small values) refused, and upper-/mixed-case renderings of whole addresses. After every call the results handed out by the previous call (decode result, CBech32Data object) are re-examined, and a valid address is decoded right after every refused string. Encodings that must fail (versions 31, 32, 255, -1), a mainnet address decoded before and a mixed-case string judged after every encode call, prefixes containing a 1 at the offsets where other prefixes end, every address object printed again under two other chains.',
+    'position set over 3 alternatives; every burst of 3 (4) adjacent symbols over all alternatives. Plus checksum-valid addresses under look-alike prefixes (prefix confusion) and 17 non-ASCII confusable characters substituted at every position in lower- and upper-case renderings. Plus checksums made with foreign constants (bech32m, 0, other small values) refused, and upper-/mixed-case renderings of whole addresses. After every call the results handed out by the previous call (decode result, CBech32Data object) are re-examined, and a valid address is decoded right after every refused string. Encodings that must fail (versions 31, 32, 255, -1), a mainnet address decoded before and a mixed-case string judged after every encode call, prefixes containing a 1 at the offsets where other prefixes end, every address object printed again under two other chains. 13 control / white-space characters appended, prepended and appended to the upper-case form.',
     'DESIGN.md 3 C11', 'Oracle ref/bech32.py: checksum as a polynomial remainder over GF(32) (independent of the library\'s polymod), '
     'validated on the BIP173 vectors; for multi-substitution families the linear syndrome decides checksum validity.',
     'exhaustive single/double fault enumeration (plus bounded multi-fault families) against a reference model')
@@ -156,7 +156,7 @@ add('C05', 'fault_enumeration',
     'version, lock time, witness; insert/remove/duplicate/swap of inputs and outputs at every position) and every signature '
     'substitution (foreign key, flipped hash-type byte, permuted order, duplicated signature, substituted redeem script). Oracle: '
     'verifies iff the reference signature hash of the edited transaction equals the signed digest; a hand-written commitment '
-    'table must agree with that oracle (self-test and at run time). Plus verification histories (a genuine spend first, then an output locked to each kind of malformed public key, in P2PK / P2PKH / multisig placements) and VerifySignature with witness-carrying funding transactions. Every substitution is verified without flags first (judged by the reference interpreter) and then with P2SH; verify.edit.verify.undo.verify histories on ONE CMutableTransaction object over the whole edit catalogue with alternating flag sets. Those histories start with evaluations that cannot succeed on a fresh scriptPubKey object; damaged encodings of every signature are checked right after the genuine input. All script checks share one CScript object per byte string and alternate a mutable / immutable spending transaction compared with its baseline after every call.',
+    'table must agree with that oracle (self-test and at run time). Plus verification histories (a genuine spend first, then an output locked to each kind of malformed public key, in P2PK / P2PKH / multisig placements) and VerifySignature with witness-carrying funding transactions. Every substitution is verified without flags first (judged by the reference interpreter) and then with P2SH; verify.edit.verify.undo.verify histories on ONE CMutableTransaction object over the whole edit catalogue with alternating flag sets. Those histories start with evaluations that cannot succeed on a fresh scriptPubKey object; damaged encodings of every signature are checked right after the genuine input. All script checks share one CScript object per byte string and alternate a mutable / immutable spending transaction compared with its baseline after every call. VerifySignature also spends the third output of a three-output funding transaction from transactions with one / no outputs.',
     'DESIGN.md 3 C05', 'Oracle ref/sighash.py + ref/secp256k1.py; nonce owned (props/eckeys.py); digest collisions ignored.',
     'exhaustive single-edit fault enumeration over sign-edit-verify histories against a reference model')
 
@@ -179,7 +179,7 @@ add('C12', 'model_checking',
     'under every (previous chain, chain) pair, P2PKH converter variants (PUSHDATA1/2/4, bare compressed/uncompressed/hybrid '
     'pubkey, strict modes), a refusal catalogue (cross-chain, witness versions 1..16, v0 lengths 2..40, every version byte, '
     'payload lengths 0..40 and 64), every printable string of length <=2 on 3 chains, every single-character '
-    'substitution/deletion/insertion of 12 valid addresses; outcome = reference decision and never another exception type. The battery parses the upper-case rendering of every bech32 address in every state (printing stays lower-case afterwards); the fault family substitutes 17 look-alike characters inside upper-case renderings.',
+    'substitution/deletion/insertion of 12 valid addresses; outcome = reference decision and never another exception type. The battery parses the upper-case rendering of every bech32 address in every state (printing stays lower-case afterwards); the fault family substitutes 17 look-alike characters inside upper-case renderings. The refusal catalogue contains v0 / v1 strings under each chain prefix whose checksum was made with the BIP350 constant, 0 or 2.',
     'DESIGN.md 3 C12', 'Oracles ref/base58.py + ref/bech32.py + chain table. State space is small by nature (selection is memoryless); '
     'one known finding (bare 65-byte pubkey truncated to 64 bytes) is listed in known_findings.json.',
     'explicit-state breadth-first search over configuration histories plus exhaustive single-fault enumeration against reference codecs')
@@ -192,7 +192,7 @@ add('C16', 'fault_enumeration',
     'proof of work is live): every transaction entry applied to every transaction incl. the coinbase, second/missing/misplaced '
     'coinbase, duplicate transaction (and same txid with other witness), sig-ops 19,999/20,000/20,001 in three distributions incl. '
     'malformed trailing pushes, wrong/zero merkle root, 14 witness-commitment modes, timestamp +7200/+7201, bad hash, bits above '
-    'limit/zero/negative, other chains; all pairs on the 3-transaction witness block; block size and weight at +-1 of the limits. Plus every history of <=4 (5) events over {select chain, CheckBlock(2 blocks), CheckBlockHeader(2 difficulty levels)} judged by the rules of the chain selected at that moment. Single entries: the scripts are inspected (accurate sig-op count) on separate equal objects before the check and every block is checked twice; a sig-op distribution where accurate and legacy counts differ. Plus ONE mutable transaction looked at (outpoints in a set, everything hashed), edited in place into every rule violation and back; every sequence of <=3 header / block checks over 3 clock values x {+7200, +7201}.',
+    'limit/zero/negative, other chains; all pairs on the 3-transaction witness block; block size and weight at +-1 of the limits. Plus every history of <=4 (5) events over {select chain, CheckBlock(2 blocks), CheckBlockHeader(2 difficulty levels)} judged by the rules of the chain selected at that moment. Single entries: the scripts are inspected (accurate sig-op count) on separate equal objects before the check and every block is checked twice; a sig-op distribution where accurate and legacy counts differ. Plus ONE mutable transaction looked at (outpoints in a set, everything hashed), edited in place into every rule violation and back; every sequence of <=3 header / block checks over 3 clock values x {+7200, +7201}. The call histories include a header at exactly the signet limit with valid proof of work (nonce ground once by the harness).',
     'DESIGN.md 3 C16', 'Oracle ref/rules.py (agrees with the repository\'s checkblock_valid/invalid vectors). Commitment outputs > 39 bytes are don\'t-care.',
     'exhaustive single and pairwise rule-violation (fault) enumeration against a reference rule list')
 
@@ -217,7 +217,7 @@ add('C19', 'model_checking',
     'Plus complete families: every satoshi 0..100,000 and ~1,000 boundary amounts (every fractional-digit pattern, d*10^k, 21e14-1) '
     'in up to 5 textual forms (fixed, trimmed, integer, exponent) through 7 receiving fields and 2 sending methods (request body '
     'parsed with Decimal); 36 hash pairs through every method that sends or returns a hash incl. 3 chained histories; '
-    'transactions/blocks/headers through every hex path bit-exactly; one mutable transaction sent, edited in place (whole catalogue) and sent again through every sending method. Reply kinds include a body cut inside a multi-byte character; the requests issued by generate / generatetoaddress are observed before the returned iterable is consumed.',
+    'transactions/blocks/headers through every hex path bit-exactly; one mutable transaction sent, edited in place (whole catalogue) and sent again through every sending method. Reply kinds include a body cut inside a multi-byte character; the requests issued by generate / generatetoaddress are observed before the returned iterable is consumed. Five falsy-but-present error members are reply kinds; eight getters are called two / three times while the server\'s answer changes.',
     'DESIGN.md 3 C19', 'No network: Proxy(connection=...) with a scripted connection. State dedup is sound: the key contains the proxy\'s only mutable state.',
     'explicit-state breadth-first search over call/reply histories with fault replies, plus bounded exhaustive value enumeration')
 
